@@ -6,9 +6,20 @@ methods are wrapped on the instance only.
 import torch
 
 
+def is_identity(t):
+    """a materialised identity feature matrix: ones (diagonal mode) or eye (full mode)"""
+    if t.dim() == 1:
+        return bool((t == 1).all())
+    return t.dim() == 2 and t.shape[0] == t.shape[1] and torch.equal(t, torch.eye(t.shape[0], dtype=t.dtype))
+
+
 def teq(a, b):
+    """Same feature matrix / weights, bit for bit.  `None` denotes the identity (`_transform_m` applies nothing), and
+    `update_M` materialises it as ones / eye when an AGOP is computed from the first iterate (`get_agop_best_model`), so
+    `None` and a materialised identity are the same matrix."""
     if a is None or b is None:
-        return a is None and b is None
+        other = b if a is None else a
+        return other is None or is_identity(other)
     return a.shape == b.shape and torch.equal(a, b)
 
 
